@@ -301,7 +301,9 @@ func collectHoles(ns []ast.Node) []mutation {
 	hole := func(fv reflect.Value, p string) {
 		switch {
 		case fv.Type() == exprT && !fv.IsNil():
-			ms = append(ms, mutation{p + ":expr-hole", func() { fv.Set(reflect.ValueOf(ast.Expr(&ast.Ident{Name: "qx", NamePos: fv.Interface().(ast.Node).Pos()}))) }})
+			ms = append(ms, mutation{p + ":expr-hole", func() {
+				fv.Set(reflect.ValueOf(ast.Expr(&ast.Ident{Name: "qx", NamePos: fv.Interface().(ast.Node).Pos()})))
+			}})
 			if id, ok := fv.Interface().(*ast.Ident); ok && id.Name != "_" {
 				ms = append(ms, mutation{p + ":ident-hole", func() { id.Name = "qn" }})
 			}
